@@ -509,7 +509,9 @@ fn window(lang: SupportLang, text: &str, max: usize, w: &Index) -> String {
   s
 }
 
-const MB: &[&str] = &["é", "ü", "日本", "😀", "ß"];
+// includes characters whose UTF-8 encoding ends in 0xBF / 0x80 (edge values of the continuation
+// byte range) and a BOM in the middle of a line
+const MB: &[&str] = &["é", "ü", "日本", "😀", "ß", "¿", "ÿ", "😿", "\u{feff}", "À", "\u{7ff}", "\u{ffff}"];
 
 /// apply one mutation; returns the label when the mutation applied
 fn apply_mut(lang: SupportLang, text: &mut String, m: &Mutn, opts: &SrcOpts) -> Option<&'static str> {
